@@ -2,16 +2,13 @@
 
   * fmt_template / template_text : decode the byte template of `core::fmt::Arguments::new`
   * str_consts                   : the string constant(s) an operand may hold (through temporaries,
-                                   tuple fields of multi-def locals, view calls); with a fallback for
-                                   `&str` *pattern* constants, whose value the extractor does not record
+                                   tuple fields of multi-def locals, view calls)
   * Taint                        : two-level forward value flow (alias of a value / computed from it)
   * control_deps                 : direct control dependence of a block on switch blocks
   * Interp                       : evaluation of a side-effect free MIR fragment on one concrete scalar
                                    (used to tabulate character-class predicates; nothing of zbus is run)
 """
-import os
 from . import mir
-from . import facts as factsmod
 
 
 # ------------------------------------------------------------------------------- fmt templates
@@ -91,50 +88,6 @@ def arguments_new(body, call):
 
 
 # ------------------------------------------------------------------------------- constants
-_SRC = {}
-
-
-def _src_lines(rel):
-    p = os.path.join(factsmod.REPO, rel)
-    if p not in _SRC:
-        try:
-            with open(p, encoding="utf-8") as fh:
-                _SRC[p] = fh.read().split("\n")
-        except OSError:
-            _SRC[p] = None
-    return _SRC[p]
-
-
-def literal_at(body, sp):
-    """The Rust string literal token that occupies exactly the compiler-reported span `sp`
-    ([lo_line, lo_col, hi_line, hi_col], 1-based lines, 0-based columns) of body.file. Only used for
-    `&str` pattern constants of a `match` (the facts carry their span but not their value)."""
-    lines = _src_lines(body.file)
-    if lines is None or sp[0] != sp[2] or sp[0] < 1 or sp[0] > len(lines):
-        return None
-    tok = lines[sp[0] - 1][sp[1]:sp[3]]
-    if len(tok) < 2 or tok[0] != '"' or tok[-1] != '"':
-        return None
-    s = tok[1:-1]
-    if "\\" in s:
-        out = []
-        i = 0
-        esc = {"n": "\n", "t": "\t", "r": "\r", "0": "\0", "\\": "\\", "'": "'", '"': '"'}
-        while i < len(s):
-            if s[i] == "\\":
-                if i + 1 < len(s) and s[i + 1] in esc:
-                    out.append(esc[s[i + 1]])
-                    i += 2
-                    continue
-                return None
-            out.append(s[i])
-            i += 1
-        s = "".join(out)
-    if '"' in tok[1:-1].replace('\\"', ""):
-        return None
-    return s
-
-
 VIEW_CALLS = ("deref", "as_str", "as_ref", "borrow", "as_bytes", "as_os_str", "as_path", "as_deref",
               "must_use", "as_slice", "as_mut", "deref_mut")
 
@@ -190,14 +143,27 @@ def str_consts(body, op, depth=0):
     return None
 
 
+def through_tuple(body, op):
+    """operand seen through the `args = (&a, &b)` tuple that format_args! builds: `&*args.1` -> `&b`'s operand"""
+    for _ in range(4):
+        o = mir.origin(body, op)
+        if o[0] in ("ref", "place") and o[1][1] and isinstance(o[1][1][0], list) and o[1][1][0][0] == "." and o[1][1][0][3] == "tuple":
+            d = mir.single_def(body, o[1][0])
+            if d and d[0] == "assign" and d[4][0] == "agg" and d[4][1] == "tuple":
+                elem = d[4][4][o[1][1][0][1]]
+                if elem[0] != "k":
+                    op = [elem[0], [elem[1][0], list(elem[1][1])]]
+                    continue
+        break
+    return op
+
+
 def pattern_const(body, call, argi=1):
     """String compared by a `<str as PartialEq>::eq(x, CONST)` call generated for a `match` arm."""
     a = call.args[argi]
     r = str_consts(body, a)
     if r is not None and len(r) == 1:
         return next(iter(r))
-    if a[0] == "k" and a[1].get("ty") == "&str" and "v" not in a[1]:
-        return literal_at(body, call.c["sp"])
     return None
 
 
@@ -246,10 +212,12 @@ class Taint:
                 t = c.dest[0]
                 srcs = [l for a in c.args for l in mir.operand_locals(a)]
                 if view(c):
-                    if t not in alias and srcs and srcs[0] in alias:
+                    # a view is a view of its receiver only (the range of `s[a..b]` does not make it "computed")
+                    recv = mir.operand_locals(c.args[0]) if c.args else []
+                    if t not in alias and any(s in alias for s in recv):
                         alias.add(t)
                         changed = True
-                    if t not in comp and any(s in comp for s in srcs):
+                    if t not in comp and any(s in comp for s in recv):
                         comp.add(t)
                         changed = True
                 else:
